@@ -97,7 +97,9 @@ impl ContainsPoint for Triangle {
             let s = p1.y * p3.x - p1.x * p3.y + (p3.y - p1.y) * p.x + (p1.x - p3.x) * p.y;
             let t = p1.x * p2.y - p1.y * p2.x + (p1.y - p2.y) * p.x + (p2.x - p1.x) * p.y;
 
-            if (s < 0) != (t < 0) {
+            // `s` and `t` must not have opposite signs. A value of zero means that the point lies
+            // on the (infinitely extended) edge and is compatible with both signs.
+            if (s < 0 && t > 0) || (s > 0 && t < 0) {
                 false
             } else {
                 // Determinant
@@ -111,9 +113,9 @@ impl ContainsPoint for Triangle {
                 // This check allows this algorithm to work with clockwise or counterclockwise
                 // triangles.
                 if a < 0 {
-                    s <= 0 && s + t >= a
+                    s <= 0 && t <= 0 && s + t >= a
                 } else {
-                    s >= 0 && s + t <= a
+                    s >= 0 && t >= 0 && s + t <= a
                 }
             }
         };
